@@ -109,6 +109,46 @@ class Ctx:
 
         return _Section()
 
+    def include(self, other_prop: str, rule_filter=None, why: str = "") -> int:
+        """Run another property's rules as obligations of this property (for anchors shared between
+        properties: a clause of the other property that is also a necessary clause of this one).
+        Obligations are copied with the rule renamed "<other>:<rule>"; a construct that is a known
+        finding of the other property is a known finding here too.  Returns the number of obligations."""
+        import importlib
+        mod = importlib.import_module(f"sa.props.{other_prop.lower()}")
+        sub = Ctx(other_prop, self.tier, self.tree, known=None)
+        with self.section(f"include {other_prop}"):
+            try:
+                mod.check(sub)
+            except AnalysisError as e:
+                if not sub.unlisted():
+                    raise
+                self.errors.append(f"[include {other_prop}] {e}")
+        n = 0
+        for o in sub.obligations:
+            if rule_filter is not None and not rule_filter(o["rule"]):
+                continue
+            o2 = dict(o)
+            o2["rule"] = f"{other_prop}:{o['rule']}"
+            self.obligations.append(o2)
+            self.rule_counts[o2["rule"]] = self.rule_counts.get(o2["rule"], 0) + 1
+            n += 1
+        for f in sub.findings:
+            if rule_filter is not None and not rule_filter(f.rule):
+                continue
+            g = Finding(self.prop, f"{other_prop}:{f.rule}", f.construct, f.fails, f.witness)
+            g.known = f.known
+            for k in self.known:
+                if k.get("rule") == g.rule and k.get("construct") == g.construct and k.get("status", "known") == "known":
+                    g.known = k
+            self.findings.append(g)
+        self.errors.extend(f"[include {other_prop}] {e}" for e in sub.errors)
+        self.functions |= sub.functions
+        self.cfg_nodes += sub.cfg_nodes
+        self.cfg_edges += sub.cfg_edges
+        self.notes.append(f"included {n} obligations of {other_prop}" + (f": {why}" if why else ""))
+        return n
+
     # ---- obligations -----------------------------------------------------------------
     @staticmethod
     def construct(qual: str, node=None) -> str:
